@@ -2,12 +2,15 @@
 import re
 
 from .lib import (ITER_PLUMBING, PLUMBING, borrow_root, callee_allow, callers, closure_args_of_call, element_sources, lit_strs, operand_local)
+from . import absint as _A
+from .lib_c07 import OTHER, decide_string_tables, path_states, variant_table
 from .lib_c12 import (STATUS_PATH, TO_STRING, Origin, agg_field_op, closure_captures, coded_impls, const_bool_operand, const_val, direct_element_sources, eval_bool_paths, field_sources, from_impls, norm_ty, op_const_path,
                       only_plumbing, params_of_type, ret_ok_sites, self_of_call)
 
 LEVEL = "other"
 TECHNIQUE = ("static analysis: sibling agreement between the document side (metadata / response_metadata / content_metadata / gen_openapi) and the runtime side "
-             "(from_request / for_object / to_response / into_response) on generic arguments, evaluated constants, enum tables and ADT fields, read from type-checked MIR")
+             "(from_request / for_object / to_response / into_response) on generic arguments, evaluated constants, enum tables and ADT fields, read from type-checked MIR; "
+             "abstract interpretation of the mime-type table pair")
 LEVEL_TEXT = ("Decides that document and live behaviour are generated from the same declaration by the same constants: (R1) each extractor documents the type parameter it "
               "deserialises into, tuple extractors document exactly the members they extract, and ApiEndpoint::new documents the FuncParams/ResponseType of the handler it installs; "
               "(R2) Path/Query document the location they read from and that location reaches openapiv3::Parameter::{Path,Query} through total, matching tables; (R3) one "
@@ -23,13 +26,16 @@ EXPLANATION = ("SIBLINGS-AGREE on generic arguments of get_metadata / make_subsc
                "SAME-SOURCE slices in ApiEndpoint::new / new_for_types and lookup_route, TABLE extraction from match arms (location, mime types, deserialiser choice), CONST evaluation "
                "of CONTENT_TYPE_* and STATUS_CODE, SHAPE of HttpErrorResponseBody vs the literals of its hand-written schema, exact evaluation of the boolean `required` expression over all paths to the construction site. "
                "Iterator chains and for loops are treated alike (a value is an *element* of a collection: Iterator::next in its slice, or the item parameter of an adaptor closure), closure "
-               "captures are resolved in the enclosing function, tables (mime types, locations) are read off path facts / arms cut at the switch, anchors are roles (parameter types, "
-               "field names, callees), never local names.")
+               "captures are resolved in the enclosing function, anchors are roles (parameter types, field names, callees), never local names. Enum-to-enum tables (location) and the "
+               "deserialiser guards are read off a path-sensitive propagation of small known values (bool flags, field-less variants, tuples of them) with a record of which variant each "
+               "watched match took (lib_c07.path_states), so a second match, an `if flag`, a `matches!` guard or an inlined helper are the same program; mime_type / from_mime_type are "
+               "decided by interpreting both (absint) over every variant, every string they mention and one string equal to none of them.")
 TRUSTED = ["rustc nightly MIR construction + const evaluation", "mirfacts extractor", "rules/engine.py slices, dominators", "schemars derive + serde derive agree on field names",
-           "openapiv3 serialisation", "C12 (status table, JSON serialisation)"]
+           "openapiv3 serialisation", "C12 (status table, JSON serialisation)", "rules/absint.py interpreter + rules/lib_c07.py summaries of array iteration (into_iter / next / find / find_map)"]
 
 DESER = r"^http_util::http_extract_path_params$|^serde_urlencoded::from_str$|^serde_path_to_error::deserialize$|^serde_json::from_(slice|str|reader)$"
 MEDIA_JSON = "http_util::CONTENT_TYPE_JSON"
+CT_ADT = "api_description::ApiEndpointBodyContentType"
 
 
 def _impl_of(ds, trait_suffix, self_prefix):
@@ -208,32 +214,6 @@ def r1_type_parameter(ctx):
 
 
 # ----------------------------------------------------------------------------- R2
-def _arm_map(f, sbb, target_adt):
-    """For a switch on an enum discriminant: {variant name: set of variants of target_adt aggregated exclusively in that arm}."""
-    info = f.switch_on(sbb)
-    out = {}
-    t = f.blocks[sbb]["term"]
-    targets = {}
-    for v, n in info["variants"].items():
-        targets[n] = f.switch_target(sbb, v)
-    for n, tb in targets.items():
-        # an arm = what is reachable from its target without coming back to the switch (a match inside a loop body), minus what the other arms reach too
-        others = set()
-        for m, ob in targets.items():
-            if ob != tb:
-                others |= f.reachable(ob, avoid=[sbb])
-        mine = f.reachable(tb, avoid=[sbb]) - others
-        if tb == t["otherwise"] and any(ob == tb for m, ob in targets.items() if m != n):
-            out[n] = None  # shares the fall-through arm with another variant
-            continue
-        vs = set()
-        for b, i, st in f.aggregates("^" + re.escape(target_adt) + "$"):
-            if b in mine:
-                vs.add(st["rv"]["variant"])
-        out[n] = vs
-    return out
-
-
 def _discr_switches(f, adt):
     out = []
     reach = f.reachable(0)
@@ -296,35 +276,29 @@ def r2_location(ctx):
     ctx.check(R, "get_metadata:location-forwarded", len(nn_calls) == 1 and ok, "new_named receives get_metadata's `loc` unmodified: %s" % ok, gmf)
     # new_named: Location -> Metadata
     nn = ctx.need_fn(ds, R, r"^api_description::ApiEndpointParameter::new_named$")
+    # a table is read as "which variants of the target are built on some path on which the scrutinee is variant V": values decided in
+    # an arm (an intermediate location enum, a bool flag, a tuple of them) select the later branches, so the answer does not depend on
+    # whether the construction sits in the arm, behind a second match, behind an `if flag`, or in an inlined helper
     sw = _discr_switches(nn, LOC)
-    t1 = _arm_map(nn, sw[0], META) if len(sw) == 1 else {}
-    ctx.check(R, "new_named:location-table", t1 == {"Path": {"Path"}, "Query": {"Query"}}, "Location -> ParameterMetadata arms: %s" % t1, nn)
+    t1 = variant_table(nn, sw, "^" + re.escape(META) + "$") if sw else {}
+    ctx.check(R, "new_named:location-table", t1 == {"Path": {"Path"}, "Query": {"Query"}}, "Location -> ParameterMetadata: %s" % t1, nn)
     # gen_openapi: Metadata -> openapiv3::Parameter
     go = ctx.need_fn(ds, R, r"^api_description::ApiDescription::<Context>::gen_openapi$")
     pcs = [g for g in [go] + ds.descendants(go) if any(True for _ in g.aggregates(r"^openapiv3::ParameterData$"))]
     if len(pcs) != 1:
-        ctx.lost(R, "the gen_openapi closure that builds openapiv3::ParameterData")
+        ctx.lost(R, "the gen_openapi function / closure that builds openapiv3::ParameterData")
         return
     pc = pcs[0]
     msw = _discr_switches(pc, META)
-    table = {}
-    if len(msw) == 1:
-        direct = _arm_map(pc, msw[0], "openapiv3::Parameter")
-        vial = _arm_map(pc, msw[0], LOC)
-        lsw = _discr_switches(pc, LOC)
-        second = _arm_map(pc, lsw[0], "openapiv3::Parameter") if len(lsw) == 1 else {}
-        for v in direct:
-            if direct[v]:
-                table[v] = direct[v]
-            elif vial.get(v):
-                out = set()
-                for l in vial[v]:
-                    out |= second.get(l) or {"?"}
-                table[v] = out
-            else:
-                table[v] = set()
-    ctx.check(R, "gen_openapi:location-table", table == {"Path": {"Path"}, "Query": {"Query"}, "Body": set()},
-              "ParameterMetadata -> openapiv3::Parameter: %s (Body parameters are not listed as parameters)" % table, pc)
+    table = variant_table(pc, msw, r"^openapiv3::Parameter$") if msw else {}
+    # every such match is on the `metadata` of an element of endpoint.parameters
+    on_param = bool(msw)
+    for sbb in msw:
+        pop = {"k": "copy", "pl": pc.switch_on(sbb)["place"]}
+        e_ok, e_why, _ = _element_of(ds, pc, pop, ("field", "parameters"))
+        on_param = on_param and e_ok and pc.slice(pop, stop_at_calls=r"iter::Iterator::next$").reads_field("metadata")
+    ctx.check(R, "gen_openapi:location-table", on_param and table == {"Path": {"Path"}, "Query": {"Query"}, "Body": set()},
+              "ParameterMetadata -> openapiv3::Parameter: %s (Body parameters are not listed as parameters); the value matched is param.metadata of an element of endpoint.parameters: %s" % (table, on_param), pc)
     # the parameter name in the document is the metadata's name
     for b, i, st in pc.aggregates(r"^openapiv3::ParameterData$"):
         sl = pc.slice(agg_field_op(st, "name"), stop_at_calls=r"iter::Iterator::next$")
@@ -481,19 +455,36 @@ def r3_content_type(ctx):
             ok = ks.has_call(r"ApiEndpointBodyContentType::mime_type$") and ks.reads_field("metadata") and not lit_strs(ks) and e_ok and \
                 only_plumbing(ks, [r"ApiEndpointBodyContentType::mime_type$", r"iter::Iterator::next$"] + TO_STRING)
         ctx.check(R, "gen_openapi:request-media-type-key", len(ins) == 1 and ok, "requestBody.content key = param.metadata's content type .mime_type(): %s" % ok, g)
-    # inverse tables
-    mt, fm, to_str, from_str, odd = _mime_tables(ctx, R)
+    # inverse tables.  Both functions are small and do nothing but compare strings for equality, branch and build values, so they are
+    # decided by interpretation (absint) over every variant, every string either of them mentions and one string equal to none of
+    # those: a match on constants, an if-chain, early returns, or from_mime_type defined *through* mime_type (`find` over a list of the
+    # variants) are the same function.  Only when a function leaves that fragment is the table read off its path facts instead.
+    a = ds.adts.get(CT_ADT)
+    variants = [v["name"] for v in a["variants"]] if a else []
+    mt = ctx.need_fn(ds, R, r"^api_description::ApiEndpointBodyContentType::mime_type$")
+    fm = ctx.need_fn(ds, R, r"^api_description::ApiEndpointBodyContentType::from_mime_type$")
+    try:
+        dec = decide_string_tables(ds, mt, fm, CT_ADT)
+        how = "interpreted"
+        to_str = {v: {x} for v, x in dec["to"].items()}
+        from_str = {x: set(o for o in outs if o != "refused") for x, outs in dec["from"].items() if x != OTHER}
+        odd = [] if dec["from"].get(OTHER) == {"refused"} else ["a string that no variant documents is accepted as %s" % sorted(dec["from"].get(OTHER) or [])]
+        odd += ["%s gives %s" % (x, sorted(outs)) for x, outs in dec["from"].items() if len(outs) != 1]
+        ctx.notes["C07.from_mime_type.aliases"] = {x: sorted(outs) for x, outs in dec["from"].items() if x != OTHER and x not in dec["to"].values() and outs != {"refused"}}
+    except _A.LeavesFragment as e:
+        how = "read off path facts (not interpretable: %s)" % e
+        mt, fm, to_str, from_str, odd = _mime_tables(ctx, R)
+    ctx.notes["C07.mime_tables_decided_by"] = how
     ctx.notes["C07.mime_type"] = {k: sorted(v) for k, v in to_str.items()}
     ctx.notes["C07.from_mime_type"] = {k: sorted(v or []) for k, v in from_str.items()}
-    a = ds.adts.get("api_description::ApiEndpointBodyContentType")
-    variants = [v["name"] for v in a["variants"]] if a else []
-    ctx.check(R, "mime-table:total", bool(variants) and sorted(to_str) == sorted(variants) and not odd, "mime_type() arms %s for variants %s" % (sorted(to_str), variants), mt)
+    ctx.check(R, "mime-table:total", bool(variants) and sorted(to_str) == sorted(variants) and not odd,
+              "mime_type() is defined for %s (variants %s); from_mime_type refuses every other string: %s [%s]" % (sorted(to_str), variants, not odd or odd, how), mt)
     for v in variants:
         s = to_str.get(v) or set()
         back = set()
         for x in s:
             back |= from_str.get(x) or set()
-        ctx.check(R, "mime-table:%s" % v, len(s) == 1 and back == {v}, "%s.mime_type() = %s; from_mime_type of that = %s" % (v, sorted(s), sorted(back)), fm)
+        ctx.check(R, "mime-table:%s" % v, len(s) == 1 and back == {v}, "%s.mime_type() = %s; from_mime_type of that = %s [%s]" % (v, sorted(s), sorted(back), how), fm)
     # runtime choice of deserialiser
     lb = ctx.need_fn(ds, R, r"^extractor::body::http_request_load_body$")
     body = ds.body_of(lb)
@@ -514,22 +505,32 @@ def r3_content_type(ctx):
     ctx.check(R, "load_body:compares-expected-with-requested", bool(roles["expected"]) and bool(roles["requested"]),
               "the body loader branches on rqctx.endpoint.body_content_type (%d switch(es)) and on from_mime_type(request header) (%d switch(es))" % (
                   len(roles["expected"]), len(roles["requested"])), body)
-    for pat, want in ((r"^serde_json::Deserializer::<.*>::from_(slice|str)$|^serde_json::from_(slice|str)$", "Json"),
-                      (r"^serde_urlencoded::Deserializer::<'de>::new$|^serde_urlencoded::from_(bytes|str)$", "UrlEncoded")):
+    # the guard is read off the path facts: on EVERY path that reaches the deserialiser some match on the expected value took the
+    # wanted variant's edge and some match on the requested value did too — as a tuple pattern, nested matches, `A if matches!(y, A)`
+    # guards (whose outcome travels through a bool), or early returns
+    desers = ((r"^serde_json::Deserializer::<.*>::from_(slice|str)$|^serde_json::from_(slice|str)$", "Json"),
+              (r"^serde_urlencoded::Deserializer::<'de>::new$|^serde_urlencoded::from_(bytes|str)$", "UrlEncoded"))
+    all_sites = [bb for pat, want in desers for bb, t in body.live_calls(pat)]
+    watch = [sbb for sws in roles.values() for sbb, info in sws]
+    states = path_states(body, [(0, {}, {})], all_sites, watch=watch) if all_sites else {}
+    for pat, want in desers:
         sites = body.live_calls(pat)
         if not sites:
             ctx.lost(R, "%s deserialiser in http_request_load_body" % want)
             continue
         for bb, t in sites:
+            sts = states.get(bb) if states is not None else None
             seen = {"expected": set(), "requested": set()}
-            for role, sws in roles.items():
-                for sbb, info in sws:
-                    for v, n in info["variants"].items():
-                        tb = body.switch_target(sbb, v)
-                        if tb != body.blocks[sbb]["term"]["otherwise"] and body.edge_dominates(sbb, tb, bb):
-                            seen[role].add(n)
-            ctx.check(R, "load_body:%s-deserialiser-guard" % want, seen["expected"] == {want} and seen["requested"] == {want},
-                      "deserialiser reached only when expected is %s and requested is %s (want %s/%s)" % (sorted(seen["expected"]), sorted(seen["requested"]), want, want), (body, bb))
+            ok = bool(sts)
+            for env, fs in sts or []:
+                for role, sws in roles.items():
+                    got = [fs[sbb] for sbb, info in sws if sbb in fs]
+                    seen[role] |= set(tuple(sorted(g)) for g in got) or {("unconstrained",)}
+                    ok = ok and any(g == frozenset([want]) for g in got)
+            ctx.check(R, "load_body:%s-deserialiser-guard" % want, ok,
+                      "on every path to the deserialiser the expected content type was matched as %s and the requested one as %s (want %s/%s)%s" % (
+                          sorted("|".join(x) for x in seen["expected"]), sorted("|".join(x) for x in seen["requested"]), want, want,
+                          "" if states is not None else " [path exploration exceeded its budget]"), (body, bb))
 
 
 # ----------------------------------------------------------------------------- R4
@@ -1055,6 +1056,33 @@ SELFTEST = [
      "edits": [(H, "        let funcparams = RequestExtractor::from_request(&rqctx, request)\n            .await\n            .map_err(<HandlerType::Error>::from)?;",
                 "        let extracted = RequestExtractor::from_request(&rqctx, request).await;\n        let funcparams = match extracted {\n            Ok(funcparams) => funcparams,\n            Err(extract_error) => {\n                let endpoint_error = <HandlerType::Error>::from(extract_error);\n                return Err(endpoint_error.into());\n            }\n        };")],
      "why": "behaviour-preserving: map_err(From::from)? written as match / return Err(e.into())"},
+    {"name": "gen_openapi-location-as-flag", "kind": "benign",
+     "edits": [(A, "                            (name, ApiEndpointParameterLocation::Path)", "                            (name, false)"),
+               (A, "                            (name, ApiEndpointParameterLocation::Query)", "                            (name, true)"),
+               (A, "                    match location {\n                        ApiEndpointParameterLocation::Query => {", "                    match location {\n                        true => {"),
+               (A, "                        ApiEndpointParameterLocation::Path => {\n                            Some(openapiv3::ReferenceOr::Item(", "                        false => {\n                            Some(openapiv3::ReferenceOr::Item(")],
+     "why": "behaviour-preserving: the location carried from the first match to the second as a bool instead of an enum; the table is the set of Parameter variants built on paths through each arm, with the values decided in the arm selecting the later branch"},
+    {"name": "gen_openapi-location-flag-inverted", "kind": "mutant", "expect": ["C07.R2"],
+     "edits": [(A, "                            (name, ApiEndpointParameterLocation::Path)", "                            (name, true)"),
+               (A, "                            (name, ApiEndpointParameterLocation::Query)", "                            (name, false)"),
+               (A, "                    match location {\n                        ApiEndpointParameterLocation::Query => {", "                    match location {\n                        true => {"),
+               (A, "                        ApiEndpointParameterLocation::Path => {\n                            Some(openapiv3::ReferenceOr::Item(", "                        false => {\n                            Some(openapiv3::ReferenceOr::Item(")],
+     "why": "same defect as gen_openapi-path-as-query in the bool-flag idiom: path parameters are emitted as query parameters and vice versa"},
+    {"name": "from_mime_type-find-over-variants", "kind": "benign",
+     "edits": [(A, "        match mime_type {\n            CONTENT_TYPE_OCTET_STREAM => Ok(Self::Bytes),\n            CONTENT_TYPE_JSON => Ok(Self::Json),\n            CONTENT_TYPE_URL_ENCODED => Ok(Self::UrlEncoded),\n            CONTENT_TYPE_MULTIPART_FORM_DATA => Ok(Self::MultipartFormData),\n            _ => Err(mime_type.to_string()),\n        }",
+                "        [Self::Bytes, Self::Json, Self::UrlEncoded, Self::MultipartFormData]\n            .into_iter()\n            .find(|candidate| candidate.mime_type() == mime_type)\n            .ok_or_else(|| mime_type.to_string())")],
+     "why": "behaviour-preserving: from_mime_type defined through mime_type over a list of all variants; both functions are decided by interpretation, so the inverse property is established whichever way it is written"},
+    {"name": "from_mime_type-find-misses-a-variant", "kind": "mutant", "expect": ["C07.R3"],
+     "edits": [(A, "        match mime_type {\n            CONTENT_TYPE_OCTET_STREAM => Ok(Self::Bytes),\n            CONTENT_TYPE_JSON => Ok(Self::Json),\n            CONTENT_TYPE_URL_ENCODED => Ok(Self::UrlEncoded),\n            CONTENT_TYPE_MULTIPART_FORM_DATA => Ok(Self::MultipartFormData),\n            _ => Err(mime_type.to_string()),\n        }",
+                "        [Self::Bytes, Self::Json, Self::MultipartFormData]\n            .into_iter()\n            .find(|candidate| candidate.mime_type() == mime_type)\n            .ok_or_else(|| mime_type.to_string())")],
+     "why": "the list of candidates lacks UrlEncoded: an endpoint declared (and documented) as url-encoded cannot be registered / its requests are refused"},
+    {"name": "load_body-requested-in-guard", "kind": "benign",
+     "edits": [("dropshot/src/extractor/body.rs", "        (Json, Json) => {", "        (Json, requested) if matches!(requested, Json) => {"),
+               ("dropshot/src/extractor/body.rs", "        (UrlEncoded, UrlEncoded) => {", "        (UrlEncoded, requested) if matches!(requested, UrlEncoded) => {")],
+     "why": "behaviour-preserving: the requested content type tested in a `matches!` guard (its outcome travels through a bool) instead of the tuple pattern; the guard is read off the path facts"},
+    {"name": "load_body-guard-requests-other-type", "kind": "mutant", "expect": ["C07.R3"],
+     "edits": [("dropshot/src/extractor/body.rs", "        (Json, Json) => {", "        (Json, requested) if matches!(requested, UrlEncoded) => {")],
+     "why": "same defect as urlencoded-arm-expects-json in the guard idiom: the JSON deserialiser runs on bodies announced as url-encoded and JSON bodies are refused by an endpoint documented as JSON"},
     {"name": "load_body-inline-expected", "kind": "benign",
      "edits": [("dropshot/src/extractor/body.rs", "    let expected_content_type = rqctx.endpoint.body_content_type.clone();\n", ""),
                ("dropshot/src/extractor/body.rs", "    let content = match (expected_content_type, body_content_type) {", "    let content = match (rqctx.endpoint.body_content_type.clone(), body_content_type) {")],
